@@ -607,7 +607,8 @@ void TzDevice::doQuery(int c, const Query& q, int opIndex, Verdict& v, Coverage&
     cov.count("c08.comparisons");
   }
 
-  if (opts.armC16 && cl.restored && isZone(d.kind) && fills) {
+  // (arguments inside the zone data only: what happens to out-of-range arguments after a history is C08/C09's subject)
+  if (opts.armC16 && cl.restored && isZone(d.kind) && fills && strcmp(ac, "in") == 0) {
     // "gives identical answers" - not only right after the restore: whenever a restored zone is asked
     // something later in the run, the zone the same manager creates directly is asked the same thing
     MgrSlot& m = isExt(d.kind) ? xmgr : bmgr;
@@ -804,6 +805,14 @@ void TzDevice::exec(const std::vector<std::string>& t, int opIndex, Verdict& v, 
       c.tz = m.base->createForTimeZoneData(data);
       const void* zi = m.findById(data.zoneId);
       if (!zi || c.tz.isError()) { c.d.kind = K_ERROR; if (!c.tz.isError()) return; }
+      else if (c.tz.getType() != (ext ? TimeZone::kTypeExtendedManaged : TimeZone::kTypeBasicManaged)
+          || c.tz.getZoneId() != data.zoneId) {
+        // the restore path handed back something other than the zone asked for: that is C16's subject (the tz-restore
+        // profile reports it); here the client is simply not created
+        if (opts.armC16) v.fail("c16-create", fmt("createForTimeZoneData for zone id %lu present in the registry returned type %d id %lu",
+            (unsigned long)data.zoneId, (int)c.tz.getType(), (unsigned long)c.tz.getZoneId()), opIndex);
+        return;
+      }
       else { c.d.kind = ext ? K_XMGR : K_BMGR; c.d.zi = zi; c.d.zoneId = data.zoneId; c.d.zone = (int)z; c.restored = true; }
     } else if (how == "bname" || how == "xname") {
       // device profile only: creation by NAME. Which zone a name maps to is C10's business and is not judged
